@@ -17,7 +17,7 @@ variable {ord : Order}
 /-- unpoisoned and well-formed, or poisoned by the model's fuel marker only -/
 def OkP (a : State) : Prop := (a.panic = none ∧ WFS a ∧ Inv a) ∨ a.panic = some "FUEL"
 
-theorem postF_pan {a s : State} (t : FAtom) (hi : Inv a) (h : postF ord a t = .ok s) : s.panic = a.panic := by
+theorem postF_panic {a s : State} (t : FAtom) (hi : Inv a) (h : postF ord a t = .ok s) : s.panic = a.panic := by
   cases t with
   | eq u v => exact (unify_step ord hi h).pan
   | neq u v => exact (disunify_step ord hi h).pan
@@ -36,7 +36,7 @@ theorem postF_okp (ho : OrderOK ord) (t : FAtom) (hk : t.OK) {a b : State}
       rw [hr] at h r
       simp only [Option.some.injEq] at h
       subst h
-      exact .inl ⟨(postF_pan t hi hr).trans hn, r.1, r.2.1⟩
+      exact .inl ⟨(postF_panic t hi hr).trans hn, r.1, r.2.1⟩
     | fail => rw [hr] at h; cases h
     | fuel =>
       rw [hr] at h
@@ -52,21 +52,32 @@ theorem postF_okp (ho : OrderOK ord) (t : FAtom) (hk : t.OK) {a b : State}
     exact .inr hf
 
 /-- goals made of admissible atoms, the interleaving and depth-first connectives, and valid library calls -/
-inductive NPG (ord : Order) : G → Prop
-  | succeed : NPG ord .succeed
-  | fail : NPG ord .fail
-  | atom {t : FAtom} : t.OK → NPG ord (.atom (liftRes fun st => postF ord st t))
-  | conj {g1 g2} : NPG ord g1 → NPG ord g2 → NPG ord (.conj g1 g2)
-  | conjD {g1 g2} : NPG ord g1 → NPG ord g2 → NPG ord (.conjD g1 g2)
-  | alt {g1 g2} : NPG ord g1 → NPG ord g2 → NPG ord (.alt g1 g2)
-  | altD {g1 g2} : NPG ord g1 → NPG ord g2 → NPG ord (.altD g1 g2)
-  | fresh {g} : NPG ord g → NPG ord (.fresh g)
-  | call {c : Call} : c.Valid → NPG ord (.call c)
+inductive NPG' (ord : Order) (A : FAtom → Prop) : G → Prop
+  | succeed : NPG' ord A .succeed
+  | fail : NPG' ord A .fail
+  | atom {t : FAtom} : A t → NPG' ord A (.atom (liftRes fun st => postF ord st t))
+  | conj {g1 g2} : NPG' ord A g1 → NPG' ord A g2 → NPG' ord A (.conj g1 g2)
+  | conjD {g1 g2} : NPG' ord A g1 → NPG' ord A g2 → NPG' ord A (.conjD g1 g2)
+  | alt {g1 g2} : NPG' ord A g1 → NPG' ord A g2 → NPG' ord A (.alt g1 g2)
+  | altD {g1 g2} : NPG' ord A g1 → NPG' ord A g2 → NPG' ord A (.altD g1 g2)
+  | fresh {g} : NPG' ord A g → NPG' ord A (.fresh g)
+  | call {c : Call} : c.Valid → NPG' ord A (.call c)
 
-theorem npg_eq (u v : Term) : NPG ord (eqG ord u v) := NPG.atom (t := .eq u v) trivial
-theorem npg_neq (u v : Term) : NPG ord (diseqG ord u v) := NPG.atom (t := .neq u v) trivial
+/-- atoms that are `==` or `!=` -/
+def TreeAtom : FAtom → Prop
+  | .eq _ _ => True
+  | .neq _ _ => True
+  | _ => False
 
-theorem npg_mkConj {g1 g2 : G} (h1 : NPG ord g1) (h2 : NPG ord g2) : NPG ord (mkConj g1 g2) := by
+section Gen
+variable {A : FAtom → Prop} (hA : ∀ u v, A (.eq u v) ∧ A (.neq u v))
+include hA
+
+theorem npg_eq (u v : Term) : NPG' ord A (eqG ord u v) := NPG'.atom (t := .eq u v) (hA u v).1
+theorem npg_neq (u v : Term) : NPG' ord A (diseqG ord u v) := NPG'.atom (t := .neq u v) (hA u v).2
+
+omit hA in
+theorem npg_mkConj {g1 g2 : G} (h1 : NPG' ord A g1) (h2 : NPG' ord A g2) : NPG' ord A (mkConj g1 g2) := by
   unfold mkConj
   split
   · exact .succeed
@@ -74,7 +85,8 @@ theorem npg_mkConj {g1 g2 : G} (h1 : NPG ord g1) (h2 : NPG ord g2) : NPG ord (mk
     · exact .fail
     · exact .conj h1 h2
 
-theorem npg_mkConjD {g1 g2 : G} (h1 : NPG ord g1) (h2 : NPG ord g2) : NPG ord (mkConjD g1 g2) := by
+omit hA in
+theorem npg_mkConjD {g1 g2 : G} (h1 : NPG' ord A g1) (h2 : NPG' ord A g2) : NPG' ord A (mkConjD g1 g2) := by
   unfold mkConjD
   split
   · exact .succeed
@@ -82,23 +94,28 @@ theorem npg_mkConjD {g1 g2 : G} (h1 : NPG ord g1) (h2 : NPG ord g2) : NPG ord (m
     · exact .fail
     · exact .conjD h1 h2
 
-theorem npg_conjOfList : ∀ (gs : List G), (∀ g ∈ gs, NPG ord g) → NPG ord (conjOfList gs)
+omit hA in
+theorem npg_conjOfList : ∀ (gs : List G), (∀ g ∈ gs, NPG' ord A g) → NPG' ord A (conjOfList gs)
   | [], _ => .succeed
   | g :: gs, h => npg_mkConj (h g List.mem_cons_self) (npg_conjOfList gs fun x hx => h x (List.mem_cons_of_mem _ hx))
 
-theorem npg_conjDOfList : ∀ (gs : List G), (∀ g ∈ gs, NPG ord g) → NPG ord (conjDOfList gs)
+omit hA in
+theorem npg_conjDOfList : ∀ (gs : List G), (∀ g ∈ gs, NPG' ord A g) → NPG' ord A (conjDOfList gs)
   | [], _ => .succeed
   | g :: gs, h => npg_mkConjD (h g List.mem_cons_self) (npg_conjDOfList gs fun x hx => h x (List.mem_cons_of_mem _ hx))
 
-theorem npg_altOfList : ∀ (gs : List G), (∀ g ∈ gs, NPG ord g) → NPG ord (altOfList gs)
+omit hA in
+theorem npg_altOfList : ∀ (gs : List G), (∀ g ∈ gs, NPG' ord A g) → NPG' ord A (altOfList gs)
   | [], _ => .fail
   | g :: gs, h => .alt (h g List.mem_cons_self) (npg_altOfList gs fun x hx => h x (List.mem_cons_of_mem _ hx))
 
-theorem npg_altDOfList : ∀ (gs : List G), (∀ g ∈ gs, NPG ord g) → NPG ord (altDOfList gs)
+omit hA in
+theorem npg_altDOfList : ∀ (gs : List G), (∀ g ∈ gs, NPG' ord A g) → NPG' ord A (altDOfList gs)
   | [], _ => .fail
   | g :: gs, h => .altD (h g List.mem_cons_self) (npg_altDOfList gs fun x hx => h x (List.mem_cons_of_mem _ hx))
 
-theorem npg_oneOf (d : Bool) (cs : List (List G)) (h : ∀ c ∈ cs, ∀ g ∈ c, NPG ord g) : NPG ord (oneOf d cs) := by
+omit hA in
+theorem npg_oneOf (d : Bool) (cs : List (List G)) (h : ∀ c ∈ cs, ∀ g ∈ c, NPG' ord A g) : NPG' ord A (oneOf d cs) := by
   unfold oneOf
   cases d with
   | true =>
@@ -116,48 +133,49 @@ theorem npg_oneOf (d : Bool) (cs : List (List G)) (h : ∀ c ∈ cs, ∀ g ∈ c
       obtain ⟨c, hc, rfl⟩ := List.mem_map.1 hg
       exact npg_conjOfList c (h c hc)
 
-theorem npg_conjLOf (d : Bool) (gs : List G) (h : ∀ g ∈ gs, NPG ord g) : NPG ord (conjLOf d gs) := by
+omit hA in
+theorem npg_conjLOf (d : Bool) (gs : List G) (h : ∀ g ∈ gs, NPG' ord A g) : NPG' ord A (conjLOf d gs) := by
   unfold conjLOf
   cases d with
   | true => exact npg_conjDOfList gs h
   | false => exact npg_conjOfList gs h
 
 /-- the body of a valid library call is such a goal: `==`, `!=` and valid calls -/
-theorem relBody_npg (c : Call) (hv : c.Valid) (n : Nat) : NPG ord (relBody ord c n).2 := by
+theorem relBody_npg (c : Call) (hv : c.Valid) (n : Nat) : NPG' ord A (relBody ord c n).2 := by
   obtain ⟨rel, args, d⟩ := c
   cases rel <;> rcases args with _ | ⟨a1, _ | ⟨a2, _ | ⟨a3, _ | ⟨a4, rest⟩⟩⟩⟩ <;> simp only [Call.Valid] at hv
   · rw [body_member]
     refine npg_oneOf d _ fun c hc g hg => ?_
     simp only [List.mem_cons, List.not_mem_nil, or_false] at hc
     rcases hc with rfl | rfl <;> simp only [List.mem_cons, List.not_mem_nil, or_false] at hg <;>
-      rcases hg with rfl | rfl <;> first | exact npg_eq _ _ | exact .call trivial
+      rcases hg with rfl | rfl <;> first | exact npg_eq hA _ _ | exact .call trivial
   · rw [body_member1]
     refine npg_oneOf d _ fun c hc g hg => ?_
     simp only [List.mem_cons, List.not_mem_nil, or_false] at hc
     rcases hc with rfl | rfl <;> simp only [List.mem_cons, List.not_mem_nil, or_false] at hg <;>
       rcases hg with rfl | rfl <;> first
-        | exact npg_eq _ _
+        | exact npg_eq hA _ _
         | (refine npg_conjLOf d _ fun g hg => ?_
            simp only [List.mem_cons, List.not_mem_nil, or_false] at hg
            rcases hg with rfl | rfl
-           · exact npg_neq _ _
+           · exact npg_neq hA _ _
            · exact .call trivial)
   · rw [body_append]
     refine npg_oneOf d _ fun c hc g hg => ?_
     simp only [List.mem_cons, List.not_mem_nil, or_false] at hc
     rcases hc with rfl | rfl <;> simp only [List.mem_cons, List.not_mem_nil, or_false] at hg <;>
-      rcases hg with rfl | rfl <;> first | exact npg_eq _ _ | exact .call trivial
+      rcases hg with rfl | rfl <;> first | exact npg_eq hA _ _ | exact .call trivial
   · rw [body_rember]
     refine npg_oneOf d _ fun c hc g hg => ?_
     simp only [List.mem_cons, List.not_mem_nil, or_false] at hc
     rcases hc with rfl | rfl | rfl <;> simp only [List.mem_cons, List.not_mem_nil, or_false] at hg <;>
-      rcases hg with rfl | rfl | rfl <;> first | exact npg_eq _ _ | exact npg_neq _ _ | exact .call trivial
+      rcases hg with rfl | rfl | rfl <;> first | exact npg_eq hA _ _ | exact npg_neq hA _ _ | exact .call trivial
   · rw [body_permute]
     refine npg_oneOf d _ fun c hc g hg => ?_
     simp only [List.mem_cons, List.not_mem_nil, or_false] at hc
     rcases hc with rfl | rfl <;> simp only [List.mem_cons, List.not_mem_nil, or_false] at hg <;>
       rcases hg with rfl | rfl <;> first
-        | exact npg_eq _ _
+        | exact npg_eq hA _ _
         | (refine .fresh (npg_conjLOf d _ fun g hg => ?_)
            simp only [List.mem_cons, List.not_mem_nil, or_false] at hg
            rcases hg with rfl | rfl <;> exact .call trivial)
@@ -165,7 +183,46 @@ theorem relBody_npg (c : Call) (hv : c.Valid) (n : Nat) : NPG ord (relBody ord c
     refine npg_oneOf d _ fun c hc g hg => ?_
     simp only [List.mem_cons, List.not_mem_nil, or_false] at hc
     rcases hc with rfl | rfl | rfl <;> simp only [List.mem_cons, List.not_mem_nil, or_false] at hg <;>
-      rcases hg with rfl | rfl | rfl | rfl <;> first | exact npg_eq _ _ | exact npg_neq _ _ | exact .call trivial
+      rcases hg with rfl | rfl | rfl | rfl <;> first | exact npg_eq hA _ _ | exact npg_neq hA _ _ | exact .call trivial
+
+
+/-- an invariant of states that every allowed atom keeps, and the counter does not touch, holds of every big-step
+    answer -/
+theorem big_invariant (P : State → Prop)
+    (hatom : ∀ t, A t → ∀ a b, (liftRes fun st => postF ord st t) a = some b → P a → P b)
+    (hbump : ∀ (a : State) (k : Nat), P a → P { a with nextVar := k }) :
+    ∀ (n : Nat) (g : G) (a b : State), BigF (defs ord) n g a b → NPG' ord A g → P a → P b
+  | 0, _, _, _, h, _, _ => h.elim
+  | n + 1, _, a, b, h, hg, ha => by
+    cases hg with
+    | succeed => simp only [BigF] at h; subst h; exact ha
+    | fail => exact h.elim
+    | atom hk => exact hatom _ hk a b h ha
+    | conj h1 h2 =>
+      obtain ⟨c, b1, b2⟩ := h
+      exact big_invariant P hatom hbump n _ c b b2 h2 (big_invariant P hatom hbump n _ a c b1 h1 ha)
+    | conjD h1 h2 =>
+      obtain ⟨c, b1, b2⟩ := h
+      exact big_invariant P hatom hbump n _ c b b2 h2 (big_invariant P hatom hbump n _ a c b1 h1 ha)
+    | alt h1 h2 =>
+      rcases h with h | h
+      · exact big_invariant P hatom hbump n _ a b h h1 ha
+      · exact big_invariant P hatom hbump n _ a b h h2 ha
+    | altD h1 h2 =>
+      rcases h with h | h
+      · exact big_invariant P hatom hbump n _ a b h h1 ha
+      · exact big_invariant P hatom hbump n _ a b h h2 ha
+    | fresh h1 => exact big_invariant P hatom hbump n _ a b h h1 ha
+    | @call c hv =>
+      simp only [BigF] at h
+      exact big_invariant P hatom hbump n _ _ b h (relBody_npg hA c hv a.nextVar) (hbump _ _ ha)
+
+end Gen
+
+/-- the class used for the no-panic theorem: every admissible atom -/
+abbrev NPG (ord : Order) : G → Prop := NPG' ord FAtom.OK
+
+theorem ok_tree (u v : Term) : FAtom.OK (.eq u v) ∧ FAtom.OK (.neq u v) := ⟨trivial, trivial⟩
 
 theorem okp_bump {a : State} (k : Nat) (h : OkP a) : OkP { a with nextVar := k } := by
   rcases h with ⟨hn, w, hi⟩ | hf
@@ -173,21 +230,9 @@ theorem okp_bump {a : State} (k : Nat) (h : OkP a) : OkP { a with nextVar := k }
   · exact .inr hf
 
 /-- no big-step answer of such a goal carries a panic site -/
-theorem np_big (ho : OrderOK ord) : ∀ (n : Nat) (g : G) (a b : State), BigF (defs ord) n g a b → NPG ord g → OkP a → OkP b
-  | 0, _, _, _, h, _, _ => h.elim
-  | n + 1, _, a, b, h, hg, ha => by
-    cases hg with
-    | succeed => simp only [BigF] at h; subst h; exact ha
-    | fail => exact h.elim
-    | atom hk => exact postF_okp ho _ hk h ha
-    | conj h1 h2 => obtain ⟨c, b1, b2⟩ := h; exact np_big ho n _ c b b2 h2 (np_big ho n _ a c b1 h1 ha)
-    | conjD h1 h2 => obtain ⟨c, b1, b2⟩ := h; exact np_big ho n _ c b b2 h2 (np_big ho n _ a c b1 h1 ha)
-    | alt h1 h2 => rcases h with h | h; exact np_big ho n _ a b h h1 ha; exact np_big ho n _ a b h h2 ha
-    | altD h1 h2 => rcases h with h | h; exact np_big ho n _ a b h h1 ha; exact np_big ho n _ a b h h2 ha
-    | fresh h1 => exact np_big ho n _ a b h h1 ha
-    | @call c hv =>
-      simp only [BigF] at h
-      exact np_big ho n _ _ b h (relBody_npg c hv a.nextVar) (okp_bump _ ha)
+theorem np_big (ho : OrderOK ord) (n : Nat) (g : G) (a b : State) (h : BigF (defs ord) n g a b) (hg : NPG ord g)
+    (ha : OkP a) : OkP b :=
+  big_invariant ok_tree OkP (fun t hk _ _ h ha => postF_okp ho t hk h ha) (fun _ k h => okp_bump k h) n g a b h hg ha
 
 /-- every call of the program is a library call with the right number of arguments -/
 def FRProg.Calls : FRProg → Prop
@@ -199,7 +244,7 @@ def FRProg.Calls : FRProg → Prop
 
 theorem FRProg.npg : ∀ (p : FRProg), p.OK → p.Calls → NPG ord (p.goal ord)
   | .succeed, _, _ => .succeed
-  | .atom _, hk, _ => .atom hk
+  | .atom _, hk, _ => NPG'.atom hk
   | .conj p q, hk, hc => .conj (FRProg.npg p hk.1 hc.1) (FRProg.npg q hk.2 hc.2)
   | .alt p q, hk, hc => .alt (FRProg.npg p hk.1 hc.1) (FRProg.npg q hk.2 hc.2)
   | .fresh p, hk, hc => .fresh (FRProg.npg p hk hc)
